@@ -739,6 +739,21 @@ Proof.
   apply ci_finish_create. eapply ci_same; [|exact C]. ssc.
 Qed.
 
+Lemma ci_do_sendoffer h c x s i stream : CI h -> CI (fst (do_sendoffer h c x s i stream)).
+Proof.
+  intros C.
+  unfold do_sendoffer.
+  destruct i as [n|n|k|n]; try (destruct (negb (send_allowed (s_perms s) stream)); [exact C|exact C]).
+  destruct (get_sess h n) as [t|] eqn:Ht; [|destruct (negb (send_allowed (s_perms s) stream)); [exact C|exact C]].
+  destruct (N.eqb_spec (s_backend t) (s_backend s)) as [Hbt|]; cbn [negb]; [|exact C].
+  destruct (N.eqb n x); [exact C|].
+  destruct (negb (send_allowed (s_perms s) stream)); [exact C|].
+  cbv zeta. set (r := match s_kind t with KVirtual p _ => p | _ => n end).
+  destruct (get_sess h r) as [rs|] eqn:Hr; [|exact C].
+  destruct (is_virtual (s_kind rs)) eqn:Hv; [exact C|].
+  destruct (sub_get rs x stream); [now apply ci_send_session|now apply ci_start_create].
+Qed.
+
 Lemma ci_do_media h c sid s to mk stream media :
   CI h -> get_sess h sid = Some s -> CI (fst (do_media h c sid s to mk stream media)).
 Proof.
@@ -751,7 +766,7 @@ Proof.
     + match goal with |- context [if ?c then _ else _] => destruct c end; [exact C|].
       destruct (negb (same_call h sid s _)); [exact C|].
       destruct (sub_get s _ stream); [now apply ci_send_session|now apply ci_start_create].
-    + destruct (N.eqb mk 2); [|exact C].
+    + destruct (is_cand mk); [|destruct (N.eqb mk 3); [now apply ci_do_sendoffer|exact C]].
       match goal with |- context [if ?c then _ else _] => destruct c end.
       * destruct (negb (send_allowed (s_perms s) stream)); [exact C|]. destruct (aget (s_pubs s) stream); exact C.
       * destruct (sub_get s _ stream); exact C.
